@@ -37,6 +37,8 @@ type spaceSpec struct {
 	// cycle (mutual / hidden left recursion through both nonterminals): the part of the
 	// two-nonterminal space in which the curtailment bookkeeping of two parsers interacts.
 	mutualOnly bool
+	// noSubsets: build the shared sub-parsers exactly as the space says (no enumeration of memoization subsets)
+	noSubsets bool
 }
 
 func (s spaceSpec) describe() string {
